@@ -368,12 +368,15 @@ void fcppt::container::raw_vector::object<T, A>::insert(
   }
   else
   {
+    // _value might refer to an element that is about to be shifted
+    T const value_copy(_value);
+
     if (!this->empty())
     {
       std::copy_backward(_position, this->end(), this->data_end() + _size);
     }
 
-    std::uninitialized_fill(_position, _position + _size, _value);
+    std::uninitialized_fill(_position, _position + _size, value_copy);
 
     this->impl_.last_ += _size;
   }
